@@ -1,25 +1,38 @@
 import Driver.Parse
 import Driver.IntegerD
+import Driver.VammD
+import Driver.FeedD
 
 namespace Driver
 
-def handle (acc : Acc) (line : String) : Acc :=
-  let acc := { acc with lines := acc.lines + 1 }
+structure DState where
+  acc : Acc := {}
+  vh : VHist := {}
+  fh : FHist := {}
+
+def handle (s : DState) (line0 : String) : DState :=
+  let line := line0.trimAscii.toString
+  let acc := { s.acc with lines := s.acc.lines + 1 }
   let (kind, kv) := parseLine line
   match kind with
-  | "I" => handleInteger acc kv line
-  | _ => acc
+  | "I" => { s with acc := handleInteger acc kv line }
+  | "VCFG" => let (a, h) := handleVCfg acc s.vh kv line; { s with acc := a, vh := h }
+  | "PCFG" => let (a, h) := handlePCfg acc kv; { s with acc := a, fh := h }
+  | "POP" => let (a, h) := handlePOp acc s.fh kv line; { s with acc := a, fh := h }
+  | "VOP" => let (a, h) := handleVOp acc s.vh kv line; { s with acc := a, vh := h }
+  | _ => { s with acc := acc }
 
-partial def loop (h : IO.FS.Stream) (acc : Acc) : IO Acc := do
+partial def loop (h : IO.FS.Stream) (s : DState) : IO DState := do
   let line ← h.getLine
-  if line.isEmpty then return acc
-  loop h (handle acc line)
+  if line.isEmpty then return s
+  loop h (handle s line)
 
 end Driver
 
 def main : IO UInt32 := do
   let stdin ← IO.getStdin
-  let acc ← Driver.loop stdin {}
+  let st ← Driver.loop stdin {}
+  let acc := st.acc
   for m in acc.out do
     IO.println m
   IO.println s!"SUMMARY lines={acc.lines} checked={acc.checked} disagree={acc.disagree} specfail={acc.specfail}"
